@@ -390,6 +390,30 @@ func (p *Prog) Callees(c ssa.CallInstruction) []*ssa.Function {
 	return p.dynCallees(c)
 }
 
+// CalleesIn: Callees, with calls of function values resolved in this calling context where that is possible (the literal a
+// parameter object carries, the closure a caller passed).
+func (e *Env) CalleesIn(c ssa.CallInstruction) []*ssa.Function {
+	cc := c.Common()
+	if cc.StaticCallee() != nil || cc.IsInvoke() || c.Parent() != e.Fn {
+		return e.P.Callees(c)
+	}
+	if _, isB := cc.Value.(*ssa.Builtin); isB {
+		return nil
+	}
+	if ts := e.funcTargets(cc.Value, 0); ts != nil {
+		var out []*ssa.Function
+		seen := map[*ssa.Function]bool{}
+		for _, t := range ts {
+			if !seen[t.fn] {
+				seen[t.fn] = true
+				out = append(out, t.fn)
+			}
+		}
+		return out
+	}
+	return e.P.Callees(c)
+}
+
 var dynCalleeCache = map[ssa.CallInstruction][]*ssa.Function{}
 
 // dynCallees: a call of a function value (literal held in a variable, func-typed parameter or field, method value): resolved
